@@ -14,13 +14,15 @@
 //   p <op...>            operation executed after both threads have finished (reported as thread 2)
 //   run <kfrom> <kto>    kto = 0: up to the number of releases A's operation makes; kto < 0: only kfrom (k = 0: B runs after A)
 // ops:  put d k v | get d k | del d k | scan d | cset d k v | cdel d k | setmeta d v | getmeta d | dbcreate d | dbdestroy d
+//       | dbopen d <00|01>  (iwkv_db with flags 0 / IWDB_VNUM64_KEYS)
 //       | sync | checkpoint | backup | grow d k   (put of a value at least as long as the file, so that the file must grow)
 //       values: hex, or *<len>:<bytehex> (len copies of one byte)
 // Output per k:
 //   RUN <k> nrel=<n> bwin=<none|done|blocked:<class>|condwait|timeout> grew=<0|1>
 //   EV <events of A>        a<class><r|w> = acquire, r<class> = release, e.g. astorer adbw aexfr rexf ...
 //   <tid> <inv> <res> <kind> <db> <key> <value> <answer>     (tid 0 = A, 1 = B)
-//   FINAL <d> <dump>   (d = 3+i: metadata of database i)   REOPEN <d> <dump>   BACKUP <d> <dump>
+//   HELD <tid> <kind> <class:mode,...>   the call returned with these locks held by the calling thread (they are then released)
+//   FINAL <d> <dump>   (d = 3+i: metadata of database i, 6+i: its flags)   REOPEN <d> <dump>   BACKUP <d> <dump>
 //   ALLOC <n>          allocated data blocks of the file after the run (only with `p` operations)
 //   MAPDIFF <n> <first> <last> <bytes before> <bytes after>   WAL mode: n bytes of the mapping at rest are not what the
 //                      file plus the log hold (they change when a checkpoint replaces the mapping)
@@ -76,7 +78,20 @@ static void pe_b_yield(const char *why, int cls) {
   }
 }
 
+// locks the calling thread holds, tracked inside an API call of the harness (every thread): a call must return with none
+#define PH_MAX 64
+static __thread struct { const void *addr; char kind; char mode; } ph[PH_MAX];   // kind: 0 mutex, 1 rwlock, 2 spin
+static __thread int ph_n, ph_on;
+static void ph_add(const void *l, int kind, int mode) {
+  if (ph_on && ph_n < PH_MAX) { ph[ph_n].addr = l; ph[ph_n].kind = (char) kind; ph[ph_n].mode = (char) mode; ++ph_n; }
+}
+static void ph_del(const void *l) {
+  if (!ph_on) return;
+  for (int i = ph_n - 1; i >= 0; --i) if (ph[i].addr == l) { for (int j = i; j + 1 < ph_n; ++j) ph[j] = ph[j + 1]; --ph_n; return; }
+}
+
 static void pe_on_acquired(const void *l, int mode, int is_rw, int is_spin) {
+  ph_add(l, is_spin ? 2 : is_rw ? 1 : 0, mode);
   if (pe_probe && is_rw && pe_nprobe < 8) pe_probe_seen[pe_nprobe++] = l;
   if (pe_role == 1 && pe_nev < PE_MAXEV) {
     pe_ev[pe_nev].t = 'a'; pe_ev[pe_nev].cls = (char) pe_class(l, is_rw, is_spin); pe_ev[pe_nev].mode = mode ? 'w' : 'r'; ++pe_nev;
@@ -85,6 +100,7 @@ static void pe_on_acquired(const void *l, int mode, int is_rw, int is_spin) {
 
 // called AFTER the real unlock
 static void pe_on_released(const void *l, int is_rw, int is_spin) {
+  ph_del(l);
   if (pe_role != 1) return;
   if (pe_nev < PE_MAXEV) { pe_ev[pe_nev].t = 'r'; pe_ev[pe_nev].cls = (char) pe_class(l, is_rw, is_spin); pe_ev[pe_nev].mode = 0; ++pe_nev; }
   int n = ++pe_nrel;
@@ -111,7 +127,7 @@ int pthread_rwlock_rdlock(pthread_rwlock_t *l) {
   REAL(pthread_rwlock_rdlock);
   if (pe_role == 2) {
     REAL2(tr, pthread_rwlock_tryrdlock);
-    if (!tr(l)) return 0;
+    if (!tr(l)) { ph_add(l, 1, 0); return 0; }
     pe_b_yield("blocked", pe_class(l, 1, 0));
   }
   int r = real(l); if (!r) pe_on_acquired(l, 0, 1, 0); return r;
@@ -120,7 +136,7 @@ int pthread_rwlock_wrlock(pthread_rwlock_t *l) {
   REAL(pthread_rwlock_wrlock);
   if (pe_role == 2) {
     REAL2(tr, pthread_rwlock_trywrlock);
-    if (!tr(l)) return 0;
+    if (!tr(l)) { ph_add(l, 1, 1); return 0; }
     pe_b_yield("blocked", pe_class(l, 1, 0));
   }
   int r = real(l); if (!r) pe_on_acquired(l, 1, 1, 0); return r;
@@ -130,7 +146,7 @@ int pthread_mutex_lock(pthread_mutex_t *l) {
   REAL(pthread_mutex_lock);
   if (pe_role == 2) {
     REAL2(tr, pthread_mutex_trylock);
-    if (!tr(l)) return 0;
+    if (!tr(l)) { ph_add(l, 0, 1); return 0; }
     pe_b_yield("blocked", pe_class(l, 0, 0));
   }
   int r = real(l); if (!r) pe_on_acquired(l, 1, 0, 0); return r;
@@ -140,7 +156,7 @@ int pthread_spin_lock(pthread_spinlock_t *l) {
   REAL(pthread_spin_lock);
   if (pe_role == 2) {
     REAL2(tr, pthread_spin_trylock);
-    if (!tr(l)) return 0;
+    if (!tr(l)) { ph_add((const void*) l, 2, 1); return 0; }
     pe_b_yield("blocked", LC_SPIN);
   }
   int r = real(l); if (!r) pe_on_acquired((const void*) l, 1, 0, 1); return r;
@@ -160,7 +176,7 @@ int pthread_cond_wait(pthread_cond_t *c, pthread_mutex_t *m) {
 
 #define NDBS 3
 #define MAXS 1024
-struct opr { char kind[12]; int db; uint8_t *k; size_t kl; uint8_t *v; size_t vl; long inv, res; char *ans; char *venc; };
+struct opr { char kind[12]; int db; uint8_t *k; size_t kl; uint8_t *v; size_t vl; long inv, res; char *ans; char *venc; char *held; };
 static struct opr sops[MAXS], pops[MAXS], aop, bop;
 static int nsops, npops, have_b;
 static IWKV kv;
@@ -242,10 +258,16 @@ static void do_op(struct opr *o) {
   IWDB db = (o->db >= 0 && o->db < NDBS) ? dbs[o->db] : 0;
   const char *kd = o->kind;
   iwrc rc = 0;
+  free(o->held); o->held = 0;
+  ph_n = 0; ph_on = 1;
   o->inv = atomic_fetch_add(&stamp, 1);
   if (!strcmp(kd, "dbcreate")) {
     rc = iwkv_db(kv, (uint32_t) o->db + 1, 0, &dbs[o->db]);
-    o->ans = rc ? errname(rc) : strdup("OK");
+    o->ans = rc == IWKV_ERROR_INCOMPATIBLE_DB_MODE ? strdup("INCOMPAT") : rc ? errname(rc) : strdup("OK");
+  } else if (!strcmp(kd, "dbopen")) {   // dbopen d <00|01>: iwkv_db with flags 0 / IWDB_VNUM64_KEYS, the handle is not kept
+    IWDB h = 0;
+    rc = iwkv_db(kv, (uint32_t) o->db + 1, (o->kl && o->k[0]) ? IWDB_VNUM64_KEYS : 0, &h);
+    o->ans = rc == IWKV_ERROR_INCOMPATIBLE_DB_MODE ? strdup("INCOMPAT") : rc ? errname(rc) : strdup("OK");
   } else if (!strcmp(kd, "sync")) {
     rc = iwkv_sync(kv, 0);
     o->ans = rc ? errname(rc) : strdup("OK");
@@ -296,6 +318,21 @@ static void do_op(struct opr *o) {
     o->ans = rc ? errname(rc) : strdup("OK");
   } else o->ans = strdup("?");
   o->res = atomic_fetch_add(&stamp, 1);
+  if (ph_n > 0) {
+    // the call returned holding locks: report them, then release them so that the sweep can go on
+    char b[512]; size_t l = 0;
+    for (int i = 0; i < ph_n && l + 24 < sizeof(b); ++i)
+      l += (size_t) snprintf(b + l, sizeof(b) - l, "%s%s:%c", i ? "," : "", lc_name[pe_class(ph[i].addr, ph[i].kind == 1, ph[i].kind == 2)], ph[i].mode ? 'w' : 'r');
+    o->held = strdup(b);
+    int sr = pe_role; pe_role = 0;
+    while (ph_n > 0) {
+      const void *a = ph[ph_n - 1].addr; int kd2 = ph[ph_n - 1].kind, before = ph_n;
+      if (kd2 == 1) pthread_rwlock_unlock((pthread_rwlock_t*) a); else if (kd2 == 2) pthread_spin_unlock((pthread_spinlock_t*) a); else pthread_mutex_unlock((pthread_mutex_t*) a);
+      if (ph_n >= before) --ph_n;
+    }
+    pe_role = sr;
+  }
+  ph_on = 0;
 }
 
 static void parse_op(struct opr *o, char **tv, int n) {   // tv[0] = kind
@@ -315,6 +352,7 @@ static void parse_op(struct opr *o, char **tv, int n) {   // tv[0] = kind
 static void print_call(int tid, struct opr *o) {
   char *ke = o->k ? venc(o->k, o->kl) : strdup("-");
   printf("%d %ld %ld %s %d %s %s %s\n", tid, o->inv, o->res, o->kind, o->db, ke, o->venc, o->ans ? o->ans : "NORETURN");
+  if (o->held) printf("HELD %d %s %s\n", tid, o->kind, o->held);
   free(ke);
 }
 
@@ -361,10 +399,16 @@ static void classify_locks(void) {
 static void dump_all(const char *tag) {
   for (int d = 0; d < NDBS; ++d) {
     IWDB h = 0;
-    iwrc rc = iwkv_db(kv, (uint32_t) d + 1, 0, &h);
-    if (rc) { printf("%s %d ERR\n%s %d ERR\n", tag, d, tag, d + NDBS); continue; }
+    pthread_rwlock_rdlock(&kv->rwl);
+    struct iwdb *x = iwhmap_get_u32(kv->dbs, (uint32_t) d + 1);
+    iwdb_flags_t fl = x ? x->dbflg : 0;
+    pthread_rwlock_unlock(&kv->rwl);
+    if (!x) { printf("%s %d -\n%s %d -\n%s %d -\n", tag, d, tag, d + NDBS, tag, d + 2 * NDBS); continue; }   // a database that does not exist is not created
+    iwrc rc = iwkv_db(kv, (uint32_t) d + 1, fl, &h);
+    if (rc) { printf("%s %d ERR\n%s %d ERR\n%s %d ERR\n", tag, d, tag, d + NDBS, tag, d + 2 * NDBS); continue; }
     char *f = scan(h); printf("%s %d %s\n", tag, d, f); free(f);
     f = getmeta(h); printf("%s %d %s\n", tag, d + NDBS, f); free(f);
+    printf("%s %d %02x\n", tag, d + 2 * NDBS, (fl & IWDB_VNUM64_KEYS) ? 1 : 0);
   }
 }
 
